@@ -198,7 +198,18 @@ class Engine(Interp, InterpExpr, InterpComp, InterpStmt, InterpCall, InterpBuilt
             self.heap.havoc(self.allowed_fn(mods))
         if con.effect:
             self.effects.append((con.effect, [vars_[a.arg] for a in fi.node.args.args if a.arg != 'self']))
-        rty = self.ts.ann_to_type(ast.parse(con.returns, mode='eval').body, fi.module) if con.returns else self.ts.return_type(fi)
+        if isinstance(con.returns, (tuple, list)):
+            # union-typed result: `returns = ('bool', 'List[bool]')`; the call forks on the alternative returned
+            alts = [self.ts.ann_to_type(ast.parse(r, mode='eval').body, fi.module) for r in con.returns]
+            if self.mode != EXEC:
+                raise Unsupported(f'contract {con.target}: union-typed result outside exec mode')
+            rty = alts[-1]
+            for k, t in enumerate(alts[:-1]):
+                if self.run.decide(self.run.fresh(f'ret_alt{k}', B)):
+                    rty = t
+                    break
+        else:
+            rty = self.ts.ann_to_type(ast.parse(con.returns, mode='eval').body, fi.module) if con.returns else self.ts.return_type(fi)
         if fi.node.returns is None and not con.returns:
             rty = NONE
         bindings['old'] = OldNS(vars_, heap_before)
@@ -295,6 +306,9 @@ def load_contract_module(ct, reg, path, modname):
         elif isinstance(node, ast.ImportFrom):
             for a in node.names:
                 mod.imports[a.asname or a.name] = ('from', node.module or '', a.name)
+        elif isinstance(node, ast.Import):
+            for a in node.names:
+                mod.imports[a.asname or a.name.split('.')[0]] = ('module', a.name if a.asname else a.name.split('.')[0])
     return mod
 
 
